@@ -680,3 +680,186 @@ Proof.
   destruct (allowance_history e o sp Hne ops s s' tr Hinv Hnu Hrun) as (Hi & Hle & _).
   unfold allow_inv in Hi. lia.
 Qed.
+
+(* ------------------------------------------------------------------ contract call trees *)
+
+Lemma ftree_ind' (P : ftree -> Prop) :
+  (forall caller tok c, P (FLeaf caller tok c)) ->
+  (forall keep kids, Forall P kids -> P (FNode keep kids)) ->
+  forall t, P t.
+Proof.
+  intros Hl Hn. fix IH 1. intros [caller tok c|keep kids].
+  - apply Hl.
+  - apply Hn. induction kids as [|k r IHr]; constructor; [apply IH|apply IHr].
+Qed.
+
+Lemma exec_tree_node e keep kids s i :
+  exec_tree e (FNode keep kids) s i =
+  let '(s', lg, m, i') := exec_kids e kids s i in
+  if keep then (s', lg, m, i') else (s, [], 0, i').
+Proof. reflexivity. Qed.
+
+Lemma exec_kids_cons e k r s i :
+  exec_kids e (k :: r) s i =
+  let '(s1, l1, m1, i1) := exec_tree e k s i in
+  let '(s2, l2, m2, i2) := exec_kids e r s1 i1 in
+  (s2, l1 ++ l2, m1 + m2, i2).
+Proof. reflexivity. Qed.
+
+Lemma survivors_node keep kids :
+  survivors (FNode keep kids) = if keep then survivors_kids kids else [].
+Proof. reflexivity. Qed.
+
+Lemma survivors_kids_cons k r : survivors_kids (k :: r) = survivors k ++ survivors_kids r.
+Proof. reflexivity. Qed.
+
+Lemma run_app e a : forall b s,
+  run e s (a ++ b) =
+  let '(s1, t1) := run e s a in let '(s2, t2) := run e s1 b in (s2, t1 ++ t2).
+Proof.
+  induction a as [|o r IH]; intros b s; cbn [app run].
+  - destruct (run e s b); reflexivity.
+  - destruct (step e s o) as [s1 x]. rewrite IH.
+    destruct (run e s1 r) as [s2 t]. destruct (run e s2 b) as [s3 t3]. reflexivity.
+Qed.
+
+Lemma ok_logs_app a b : ok_logs (a ++ b) = ok_logs a ++ ok_logs b.
+Proof.
+  induction a as [|[o x] r IH]; [reflexivity|]. cbn [app ok_logs].
+  destruct x; rewrite IH; try reflexivity. apply app_assoc.
+Qed.
+
+(* a transaction's call tree amounts to the plain history of its surviving calls: same final state, same logs;
+   everything below a frame that failed is as if it had never been executed *)
+Definition tree_as_survivors (e : env) (t : ftree) : Prop := forall s i,
+  let '(s', lg, _, _) := exec_tree e t s i in
+  s' = fst (run e s (survivors t)) /\ lg = ok_logs (snd (run e s (survivors t))).
+
+Lemma exec_tree_survivors e t : tree_as_survivors e t.
+Proof.
+  induction t as [caller tok c|keep kids IH] using ftree_ind'; intros s i.
+  - cbn [exec_tree survivors run step].
+    destruct (evm_call e s caller tok c) as [s' o] eqn:Ec. cbn [fst snd ok_logs].
+    destruct o; cbn [fst snd ok_logs]; rewrite ?app_nil_r; split; reflexivity.
+  - rewrite exec_tree_node, survivors_node.
+    assert (Hk : forall s i, let '(s', lg, _, _) := exec_kids e kids s i in
+                 s' = fst (run e s (survivors_kids kids)) /\ lg = ok_logs (snd (run e s (survivors_kids kids)))).
+    { clear s i. induction IH as [|k r Hk Hr IHr]; intros s i.
+      - cbn. split; reflexivity.
+      - rewrite exec_kids_cons, survivors_kids_cons, run_app.
+        specialize (Hk s i). destruct (exec_tree e k s i) as [[[s1 l1] m1] i1].
+        destruct Hk as [Hs1 Hl1].
+        specialize (IHr s1 i1). destruct (exec_kids e r s1 i1) as [[[s2 l2] m2] i2].
+        destruct IHr as [Hs2 Hl2].
+        destruct (run e s (survivors k)) as [sa ta]. cbn [fst snd] in Hs1, Hl1. subst sa.
+        destruct (run e s1 (survivors_kids r)) as [sb tb]. cbn [fst snd] in Hs2, Hl2 |- *.
+        rewrite ok_logs_app. subst. split; reflexivity. }
+    specialize (Hk s i). destruct (exec_kids e kids s i) as [[[s' lg] m] i'].
+    destruct keep; [exact Hk|]. cbn. split; reflexivity.
+Qed.
+
+(* a frame that fails leaves nothing, whatever ran below it *)
+Lemma failed_frame_nothing e kids s i :
+  exists i', exec_tree e (FNode false kids) s i = (s, [], 0, i').
+Proof.
+  rewrite exec_tree_node. destruct (exec_kids e kids s i) as [[[s' lg] m] i']. eexists; reflexivity.
+Qed.
+
+(* and a transaction whose top frame fails changes nothing at all *)
+Lemma failed_tx_nothing e kids s : xstep e s (XTx (FNode false kids)) = (s, OErr).
+Proof.
+  cbn [xstep tree_keep]. destruct (failed_frame_nothing e kids s 0) as [i' ->]. reflexivity.
+Qed.
+
+Lemma xstep_tx_state e t s : fst (xstep e s (XTx t)) = fst (run e s (survivors t)).
+Proof.
+  cbn [xstep]. pose proof (exec_tree_survivors e t s 0) as H.
+  destruct (exec_tree e t s 0) as [[[s' lg] m] i']. destruct H as [-> _].
+  destruct (tree_keep t); reflexivity.
+Qed.
+
+Lemma xstep_tx_logs e t s s' r lg :
+  xstep e s (XTx t) = (s', OOk r lg) -> lg = ok_logs (snd (run e s (survivors t))).
+Proof.
+  cbn [xstep]. pose proof (exec_tree_survivors e t s 0) as H.
+  destruct (exec_tree e t s 0) as [[[s1 l1] m] i']. destruct H as [_ ->].
+  destruct (tree_keep t); intros E; inversion E; reflexivity.
+Qed.
+
+(* histories with contract transactions end in the state of the flattened plain history *)
+Theorem xrun_flatten e xs : forall s, fst (xrun e s xs) = fst (run e s (flatten xs)).
+Proof.
+  induction xs as [|x r IH]; intros s; [reflexivity|].
+  cbn [xrun]. destruct (xstep e s x) as [s1 o] eqn:Ex.
+  specialize (IH s1). destruct (xrun e s1 r) as [s2 t]. cbn [fst] in IH |- *.
+  destruct x as [o0|t0]; cbn [flatten].
+  - cbn [xstep] in Ex. cbn [run]. rewrite Ex. destruct (run e s1 (flatten r)) as [s3 t3]. exact IH.
+  - rewrite run_app. pose proof (xstep_tx_state e t0 s) as Hs. rewrite Ex in Hs. cbn [fst] in Hs.
+    destruct (run e s (survivors t0)) as [sa ta]. cbn [fst] in Hs. subst sa.
+    destruct (run e s1 (flatten r)) as [sb tb]. exact IH.
+Qed.
+
+(* so every law of plain histories holds for histories with contract transactions, read on the flattened trace *)
+Theorem supply_history_x e xs s L d s' xtr :
+  NoDup L -> (forall o, In o (flatten xs) -> incl (op_addrs o) L) ->
+  xrun e s xs = (s', xtr) ->
+  let tr := snd (run e s (flatten xs)) in
+  total s' d L - total s d L = supply s' d - supply s d - sumZ (env_delta d) tr /\
+  supply s' d = supply s d - sumZ (burned_by e d) tr + sumZ (env_delta d) tr /\
+  0 <= sumZ (burned_by e d) tr /\
+  locked s' = locked s.
+Proof.
+  intros Hnd Hin Hx tr. pose proof (xrun_flatten e xs s) as Hf. rewrite Hx in Hf. cbn [fst] in Hf.
+  subst tr. destruct (run e s (flatten xs)) as [s2 t] eqn:Er. cbn [fst snd] in *. subst s2.
+  exact (supply_history e (flatten xs) s L d s' t Hnd Hin Er).
+Qed.
+
+Theorem allowance_history_x e o sp : o <> sp ->
+  forall xs s s' xtr,
+  0 <= allow s o sp < MAXU256 -> forallb (not_unlimited_approve o sp) (flatten xs) = true ->
+  xrun e s xs = (s', xtr) ->
+  let tr := snd (run e s (flatten xs)) in
+  0 <= allow s' o sp < MAXU256 /\
+  sumZ (spent_by allT o sp) tr + allow s' o sp <= allow s o sp + sumZ (approved_by allT o sp) tr.
+Proof.
+  intros Hne xs s s' xtr Hinv Hnu Hx tr. pose proof (xrun_flatten e xs s) as Hf. rewrite Hx in Hf. cbn [fst] in Hf.
+  subst tr. destruct (run e s (flatten xs)) as [s2 t] eqn:Er. cbn [fst snd] in *. subst s2.
+  destruct (allowance_history e o sp Hne (flatten xs) s s' t Hinv Hnu Er) as (H1 & H2 & _). split; assumption.
+Qed.
+
+Theorem nonneg_history_x e xs s s' xtr :
+  (forall a d, 0 <= locked s a d) -> (forall a d, 0 <= bal s a d) ->
+  xrun e s xs = (s', xtr) -> forall a d, 0 <= bal s' a d.
+Proof.
+  intros Hl Hb Hx. pose proof (xrun_flatten e xs s) as Hf. rewrite Hx in Hf. cbn [fst] in Hf.
+  destruct (run e s (flatten xs)) as [s2 t] eqn:Er. cbn [fst] in Hf. subst s2.
+  exact (nonneg_history e (flatten xs) s s' t Hl Hb Er).
+Qed.
+
+(* a failing xstep (plain operation, or a transaction whose top frame fails) changes nothing *)
+Lemma xstep_not_ok e s x s' o : xstep e s x = (s', o) -> is_ok o = false -> s' = s.
+Proof.
+  destruct x as [p|t]; cbn [xstep].
+  - apply step_not_ok.
+  - destruct t as [caller tok c|[|] kids].
+    + cbn [exec_tree tree_keep]. destruct (evm_call e s caller tok c) as [s1 [r lg| |]];
+        intros E; inversion E; subst; discriminate.
+    + rewrite exec_tree_node. destruct (exec_kids e kids s 0) as [[[s1 lg] m] i']. cbn [tree_keep].
+      intros E; inversion E; subst; discriminate.
+    + destruct (failed_frame_nothing e kids s 0) as [i' ->]. cbn [tree_keep]. intros E; inversion E; reflexivity.
+Qed.
+
+(* witness: the owner's coins survive a spender's transferFrom made in a frame that fails, the allowance too; the same
+   call in a frame that completes moves them; the mask names exactly the surviving successful leaves *)
+Definition x_tree : ftree :=
+  FNode true [FLeaf 5 1000 (Approve 6 8);
+              FNode false [FLeaf 6 1000 (TransferFrom 5 9 7); FNode true [FLeaf 6 1000 (TransferFrom 5 9 1)]];
+              FLeaf 6 1000 (TransferFrom 5 9 3);
+              FLeaf 6 1000 (TransferFrom 5 9 6)].
+
+Lemma x_tree_witness :
+  let '(s', o) := xstep x_env x_state (XTx x_tree) in
+  o = OOk (RUint (1 + 8)) [LApproval 1000 5 6 8; LTransfer 1000 5 9 3] /\
+  bal s' 5 0 = 7 /\ bal s' 9 0 = 3 /\ allow s' 5 6 = 5 /\
+  survivors x_tree = [Call 5 1000 (Approve 6 8); Call 6 1000 (TransferFrom 5 9 3); Call 6 1000 (TransferFrom 5 9 6)].
+Proof. vm_compute. repeat split; reflexivity. Qed.
